@@ -221,10 +221,71 @@ def kat_monitor(script, c):
     return hits
 
 
+# ---- the crypto suites as the library's helper functions define them, against the parameters the RFCs give
+# (RFC 3711 8.2 / RFC 4568 6.2: AES_CM_128_HMAC_SHA1_80 / _32, F8 not supported; RFC 6188: AES_192_CM / AES_256_CM; RFC 7714 14.2:
+# AEAD_AES_128_GCM / AEAD_AES_256_GCM with a 16-octet tag and a 12-octet salt): cipher id, key+salt length, auth id, auth key length,
+# tag length.  sec_serv: confidentiality + authentication for the full suites, confidentiality only for *_null_auth, authentication
+# only for null_cipher_hmac_sha1_80, none for null_cipher_hmac_null.
+RFC_SUITES = {
+    0: (ICM128, 30, HMAC, 20, 10, 3), 1: (ICM128, 30, HMAC, 20, 10, 3), 2: (ICM128, 30, HMAC, 20, 4, 3), 3: (ICM128, 30, NULL_AUTH, 0, 0, 1),
+    4: (NULL_CIPHER, 30, HMAC, 20, 10, 2), 5: (NULL_CIPHER, 30, NULL_AUTH, 0, 0, 0),
+    6: (ICM256, 46, HMAC, 20, 10, 3), 7: (ICM256, 46, HMAC, 20, 4, 3), 8: (ICM256, 46, NULL_AUTH, 0, 0, 1),
+    9: (ICM192, 38, HMAC, 20, 10, 3), 10: (ICM192, 38, HMAC, 20, 4, 3), 11: (ICM192, 38, NULL_AUTH, 0, 0, 1),
+    12: (GCM128, 28, NULL_AUTH, 0, 16, 3), 13: (GCM256, 44, NULL_AUTH, 0, 16, 3),
+}
+# srtp_profile_t -> (setter for RTP, setter for RTCP, master key length, master salt length); RFC 3711: SRTCP always carries the
+# 80-bit tag, so the _32 profile maps to the _80 suite for RTCP
+RFC_PROFILES = {1: (0, 0, 16, 14), 2: (2, 0, 16, 14), 5: (4, 4, 16, 14), 7: (12, 12, 16, 12), 8: (13, 13, 32, 12)}
+
+
+def suites_script(gcm):
+    L = [f"stdpol {n:x}" for n in range(15)]
+    for prof in range(0, 10):
+        L += [f"profpol {prof:x} 0", f"profpol {prof:x} 1", f"proflen {prof:x}"]
+    return [("std-suites" + ("-gcm" if gcm else ""), "\n".join(L) + "\n")]
+
+
+def suites_monitor(gcm):
+    def mon(script, c):
+        hits = []
+        sl = script.split("\n")
+        out = {int(l.split()[0]): [int(x, 16) for x in l.split()[2:]] for l in c if l.strip()}
+        for i, l in enumerate(sl, 1):
+            t = l.split()
+            if not t:
+                continue
+            o = out.get(i, [])
+            if t[0] == "stdpol":
+                n = int(t[1], 16)
+                want = RFC_SUITES.get(n)
+                got = tuple(o[1:7]) if o and o[0] == 0 else None
+                if (want is None) != (got is None) or (want is not None and got != want):
+                    hits.append({"what": "a crypto-suite helper (srtp_crypto_policy_set_*) does not set the parameters the RFCs give for that suite",
+                                 "signature": f"suite-params:{n}", "detail": f"setter #{n}: got {got} expected {want}"}); break
+            elif t[0] == "profpol":
+                prof, rtcp = int(t[1], 16), int(t[2], 16)
+                known = prof in RFC_PROFILES and (prof < 7 or gcm)
+                want = RFC_SUITES[RFC_PROFILES[prof][1 if rtcp else 0]] if known else None
+                got = tuple(o[1:7]) if o and o[0] == 0 else None
+                if got != want:
+                    hits.append({"what": "srtp_crypto_policy_set_from_profile_for_rtp / _rtcp does not give the suite of the profile",
+                                 "signature": f"profile-params:{prof}:{rtcp}", "detail": f"got {got} expected {want}"}); break
+            elif t[0] == "proflen":
+                prof = int(t[1], 16)
+                want = RFC_PROFILES[prof][2:] if prof in RFC_PROFILES else (0, 0)
+                if tuple(o[:2]) != tuple(want):
+                    hits.append({"what": "srtp_profile_get_master_key_length / _salt_length differ from the profile's key and salt sizes",
+                                 "signature": f"profile-lengths:{prof}", "detail": f"got {o[:2]} expected {want}"}); break
+        return hits
+    return mon
+
+
 def families(tier, seed, ctx):
     rng = random.Random(seed * 1000 + 3)
     return [Family("wire-vs-rfc", build(rng, tier, ctx), monitor=monitor),
             Family("rfc6904-inner-padding", build(rng, "quick", ctx, padding_case=True)[:6], monitor=monitor),
+            Family("standard-suites", suites_script(False), monitor=suites_monitor(False)),
+            Family("standard-suites-openssl", suites_script(True), monitor=suites_monitor(True), config="openssl"),
             Family("rfc7714-vectors", gcm_kat_scripts(), monitor=kat_monitor, config="openssl"),
             # the OpenSSL back end's AES-ICM / HMAC glue (aes_icm_ossl.c, hmac_ossl.c) and AES-192 (RFC 6188), which only that
             # configuration has, against the same RFC specification
